@@ -17,7 +17,8 @@ one() {
     o=$(VERIF_REPO="$s/repo" VERIF_OUT="$s/ev" /verif/check.sh $p quick 2>&1 | grep -E "^VIOLATED|^UNDECIDED|^ANALYSIS-FAILURE" | cut -c1-330 | sed "s/^/$p /")
     [ -n "$o" ] && out="$out"$'\n'"$o"
   done
-  echo "$out"; rm -rf "$s"
+  ( flock 9; echo "$out" ) 9>>/tmp/rop.lock   # one block at a time: parallel workers must not interleave their lines
+  rm -rf "$s"
 }
 export -f one
 printf '%s\n' "$@" | xargs -P ${ROP_P:-4} -I{} bash -c 'one {}'
